@@ -113,4 +113,30 @@ func TestC18ProxiedTracker(t *testing.T) {
 		}
 		stats.Case("unusable-proxy/"+proxy, true, "unusable-proxy-fails-closed")
 	}
+	// ---- a UDP tracker: proxies relay TCP only, so the announce must fail;
+	// no datagram may reach the tracker from our own address
+	for _, us := range []*udpServer{ss.udp4, ss.udp6} {
+		for _, proxy := range []string{"socks5://" + proxySrv.host, "socks5://127.0.0.1:1", "http://" + proxySrv.host, "socks5h://" + proxySrv.host} {
+			a1 := httpAnswer{status: 200, body: good, cutAt: -1}
+			proxySrv.script(&a1)
+			us.install(nil)
+			r := proxiedAnnounce("udp://"+us.host+"/announce", proxy)
+			if r.timedOut {
+				t.Skip("inconclusive: a UDP announce under a proxy did not return within 60 s")
+			}
+			if r.panic != nil {
+				t.Fatalf("UDP tracker, proxy %q: Announce panicked: %v", proxy, r.panic)
+			}
+			if !us.flush() {
+				t.Skip("inconclusive: the loopback UDP server does not answer")
+			}
+			if reqs, _ := us.seen(); len(reqs) > 0 {
+				t.Fatalf("UDP tracker %s, proxy %q: the tracker received %d datagram(s) directly from our own address (%v): a proxied torrent reveals its address to the tracker instead of the announce failing", us.host, proxy, len(reqs), reqs)
+			}
+			if r.err == nil {
+				t.Fatalf("UDP tracker %s, proxy %q: Announce reports success (peers %v) although nothing reached the tracker", us.host, proxy, r.peers)
+			}
+			stats.Case("proxied-udp-tracker/"+us.pc.LocalAddr().Network()+"/"+strings.SplitN(proxy, ":", 2)[0], true, "proxied-udp-tracker-fails-closed")
+		}
+	}
 }
